@@ -79,12 +79,30 @@ def bag(prog: Program, f: FuncInfo) -> Dict[str, Counter]:
                     continue
                 out['conds'][nm(f'{"not " if ckd.negated else ""}{ckd.kind}({ckd.subject}){":" + ckd.detail if ckd.kind in ("eq", "len-cmp", "isinstance") else ""}')] += 1
         elif isinstance(x, ast.Return):
-            v = x.value
-            while isinstance(v, ast.Await):
-                v = v.value
-            out['returns'][nm(_shape(v, f) if v is not None else 'None')] += 1
+            pass        # see below: compared through value flow
         elif isinstance(x, ast.Assert):
             out['asserts'][nm(norm(x.test))] += 1
+    # returns: the SET of leaf expressions a return can produce (conditional expressions, temporaries and awaits of a local
+    # are looked through), so `return a if c else b` and `if c: return a` + `return b` give the same record
+    from ..cfg import CFG
+    from ..flow import Flow
+    try:
+        cfg = CFG(f, prog)
+        fl = Flow(cfg)
+        for n in cfg.stmt_nodes():
+            if n.kind == 'stmt' and isinstance(n.ast, ast.Return):
+                if n.ast.value is None:
+                    out['returns']['None'] = 1
+                    continue
+                for al in fl.alts(n, n.ast.value):
+                    v = al.expr
+                    while isinstance(v, ast.Await):
+                        v = v.value
+                    out['returns'][nm(_shape(v, f))] = 1
+    except AnalysisError:
+        for x in walk_own(f.node):
+            if isinstance(x, ast.Return):
+                out['returns'][nm(_shape(x.value, f) if x.value is not None else 'None')] = 1
     return out
 
 
@@ -167,6 +185,8 @@ def run(ck: Check, prog: Program) -> None:
                '(isinstance(UnsetType) vs truthiness of a MaybeSet[Response] filter; generator vs gather; the iscoroutine/await step; '
                'the async-only concurrent_batch option) are recognised by the extractors or declared, not whitelisted by text.')
     ck.not_decided.append('behavioural equality on facets no fact covers (e.g. an extra pure helper call in one half): the facets compared are listed in the evidence')
+    from .common import dispatcher_program
+    prog = dispatcher_program(prog)
     roles = dispatchers(prog)
     sync = [r for r in roles if not r.dispatch.is_async]
     asyn = [r for r in roles if r.dispatch.is_async]
